@@ -7,7 +7,10 @@ import (
 	"fmt"
 	"os"
 	"path/filepath"
+	"runtime"
 	"strings"
+	"sync"
+	"sync/atomic"
 )
 
 type Stats struct {
@@ -29,15 +32,24 @@ type Stats struct {
 	GenCollision int            `json:"generation_collisions"`
 }
 
+type variantBuf struct {
+	checker  string
+	caseType string
+	cur     []string
+	curIdx  []int
+}
+
 type Sink struct {
 	dir      string
 	prelude  string
 	checker  string // Coq function applied to the case list
 	oracle   string // optional Layer-B oracle applied to the case list
+	fsVariant bool  // evaluate file-store cases with the file-store model (check_all_fs)
 	caseType string
 	perFile  int
 	cur      []string
 	curIdx   []int
+	curV     map[string]*variantBuf // additional shard streams (e.g. "fs": file-store model)
 	fileNo   int
 	jsonl    *os.File
 	seen     map[string]int // canonical text -> first index
@@ -59,7 +71,29 @@ func NewSink(dir, prelude, caseType, checker string, perFile int) *Sink {
 // Add records a case.  nontrivial is the property-specific rule.  Cases whose canonical text
 // was already emitted (e.g. the same program giving identical observations on the other store)
 // are counted but not written to a .v file again.
+// AddPreV: like AddPre, but the case is evaluated with the checker of the named variant
+// (its own shard files); identical texts are only deduplicated within one variant.
+func (s *Sink) AddPreV(variant, checker, caseType string, c Case, text string, b []byte, nontrivial bool) {
+	if variant == "" {
+		s.AddPre(c, text, b, nontrivial)
+		return
+	}
+	if s.curV == nil {
+		s.curV = map[string]*variantBuf{}
+	}
+	vb := s.curV[variant]
+	if vb == nil {
+		vb = &variantBuf{checker: checker, caseType: caseType}
+		s.curV[variant] = vb
+	}
+	s.addCommon(c, b, variant+"\x00"+text, text, nontrivial, vb)
+}
+
 func (s *Sink) AddPre(c Case, text string, b []byte, nontrivial bool) {
+	s.addCommon(c, b, text, text, nontrivial, nil)
+}
+
+func (s *Sink) addCommon(c Case, b []byte, keytext, text string, nontrivial bool, vb *variantBuf) {
 	idx := s.n
 	s.n++
 	st := s.stats
@@ -92,7 +126,7 @@ func (s *Sink) AddPre(c Case, text string, b []byte, nontrivial bool) {
 		st.Panics = append(st.Panics, idx)
 	}
 	_, _ = s.jsonl.Write(append(b, '\n'))
-	h := sha256.Sum256([]byte(text))
+	h := sha256.Sum256([]byte(keytext))
 	key := hex.EncodeToString(h[:8])
 	if _, dup := s.seen[key]; dup {
 		return
@@ -105,6 +139,15 @@ func (s *Sink) AddPre(c Case, text string, b []byte, nontrivial bool) {
 	if len(st.Samples) < 3 && nontrivial {
 		st.Samples = append(st.Samples, c)
 	}
+	if vb != nil {
+		vb.cur = append(vb.cur, text)
+		vb.curIdx = append(vb.curIdx, idx)
+		if len(vb.cur) >= s.perFile {
+			s.flushBuf(vb.checker, vb.caseType, vb.cur, vb.curIdx)
+			vb.cur, vb.curIdx = nil, nil
+		}
+		return
+	}
 	s.cur = append(s.cur, text)
 	s.curIdx = append(s.curIdx, idx)
 	if len(s.cur) >= s.perFile {
@@ -113,19 +156,24 @@ func (s *Sink) AddPre(c Case, text string, b []byte, nontrivial bool) {
 }
 
 func (s *Sink) flush() {
-	if len(s.cur) == 0 {
+	s.flushBuf(s.checker, s.caseType, s.cur, s.curIdx)
+	s.cur, s.curIdx = nil, nil
+}
+
+func (s *Sink) flushBuf(checker, caseType string, cur []string, curIdx []int) {
+	if len(cur) == 0 {
 		return
 	}
 	name := fmt.Sprintf("cases_%03d.v", s.fileNo)
 	s.fileNo++
 	var sb strings.Builder
-	defs, body := internLiterals(strings.Join(s.cur, ";\n"))
+	defs, body := internLiterals(strings.Join(cur, ";\n"))
 	sb.WriteString(s.prelude)
 	sb.WriteString(defs)
-	sb.WriteString("\nDefinition cases : list " + s.caseType + " := [\n")
+	sb.WriteString("\nDefinition cases : list " + caseType + " := [\n")
 	sb.WriteString(body)
 	sb.WriteString("\n].\n")
-	sb.WriteString("Definition R := Eval vm_compute in " + s.checker + " cases.\nPrint R.\n")
+	sb.WriteString("Definition R := Eval vm_compute in " + checker + " cases.\nPrint R.\n")
 	if s.oracle != "" {
 		sb.WriteString("Definition RB := Eval vm_compute in " + s.oracle + " cases.\nPrint RB.\n")
 	}
@@ -133,12 +181,14 @@ func (s *Sink) flush() {
 		panic(err)
 	}
 	s.stats.Files = append(s.stats.Files, name)
-	s.index = append(s.index, s.curIdx)
-	s.cur, s.curIdx = nil, nil
+	s.index = append(s.index, curIdx)
 }
 
 func (s *Sink) Close(rule string, exhaustive bool) {
 	s.flush()
+	for _, vb := range s.curV {
+		s.flushBuf(vb.checker, vb.caseType, vb.cur, vb.curIdx)
+	}
 	_ = s.jsonl.Close()
 	s.stats.Rule = rule
 	s.stats.Exhaustive = exhaustive
@@ -149,6 +199,29 @@ func (s *Sink) Close(rule string, exhaustive bool) {
 	_ = os.WriteFile(filepath.Join(s.dir, "meta.json"), b, 0o666)
 }
 
+
+// parallelN runs f(0..n-1) on w workers.
+func parallelN(w, n int, f func(i int)) {
+	if w > runtime.NumCPU() {
+		w = runtime.NumCPU()
+	}
+	var wg sync.WaitGroup
+	next := int64(-1)
+	for k := 0; k < w; k++ {
+		wg.Add(1)
+		go func() {
+			defer wg.Done()
+			for {
+				i := int(atomic.AddInt64(&next, 1))
+				if i >= n {
+					return
+				}
+				f(i)
+			}
+		}()
+	}
+	wg.Wait()
+}
 
 var _ = json.Marshal
 var _ = sha256.Sum256
